@@ -404,43 +404,38 @@ def alphabet_size(N):
 
 # ---- stabilizer groups with signs (GF(2) bitset elimination, own code) -----------------------
 class RefGroup(object):
-    """group generated by commuting Hermitian Paulis; reduced row echelon form with phases."""
+    """group generated by commuting Hermitian Paulis; reduced row echelon form with phases (own GF(2) elimination)."""
 
     def __init__(self, letters, ks):
         letters = np.asarray(letters, dtype=np.int64)
         ks = np.asarray(ks, dtype=np.int64) % 4
         self.N = letters.shape[1] if letters.ndim == 2 else 0
-        rows = [(letters[i].copy(), int(ks[i])) for i in range(letters.shape[0])]
-        self.basis = []          # list of (pivot_col, letters, k)
+        self.basis = []          # list of [pivot_col, letters, k, bits]
         self.minus_identity = False
         self.dependent = 0
-        for l, k in rows:
-            l, k = self._reduce(l, k)
-            bits = to_g(l)
-            nz = np.nonzero(bits)[0]
+        for i in range(letters.shape[0]):
+            l, k, bits = self._reduce(letters[i].copy(), int(ks[i]))
+            nz = np.flatnonzero(bits)
             if len(nz) == 0:
                 self.dependent += 1
                 if k % 4 != 0:
                     self.minus_identity = True
                 continue
             piv = int(nz[0])
-            # eliminate piv from existing basis rows
-            newb = []
-            for (pc, bl, bk) in self.basis:
-                if to_g(bl)[piv]:
-                    bl, bk = pmul(bl, bk, l, k)
-                    bk = int(bk)
-                newb.append((pc, bl, bk))
-            newb.append((piv, l, k))
-            newb.sort(key=lambda t: t[0])
-            self.basis = newb
+            for row in self.basis:          # eliminate the new pivot column from the rows already in the basis
+                if row[3][piv]:
+                    bl, bk = pmul(row[1], row[2], l, k)
+                    row[1], row[2], row[3] = bl, int(bk), row[3] ^ bits
+            self.basis.append([piv, l, int(k), bits])
+            self.basis.sort(key=lambda t: t[0])
 
     def _reduce(self, l, k):
-        for (pc, bl, bk) in self.basis:
-            if to_g(l)[pc]:
+        bits = to_g(l).astype(np.int64)
+        for (pc, bl, bk, bb) in self.basis:
+            if bits[pc]:
                 l, k = pmul(l, k, bl, bk)
-                k = int(k)
-        return l, int(k) % 4
+                bits = bits ^ bb
+        return l, int(k) % 4, bits
 
     @property
     def dim(self):
@@ -448,29 +443,30 @@ class RefGroup(object):
 
     def contains(self, l, k):
         """returns +1 if i^k l in group, -1 if its negative is, 0 if neither (or non-Hermitian)."""
-        l2, k2 = self._reduce(np.asarray(l, dtype=np.int64), int(k))
-        if to_g(l2).any():
+        l2, k2, bits = self._reduce(np.asarray(l, dtype=np.int64), int(k))
+        if bits.any():
             return 0
         return {0: 1, 2: -1}.get(k2 % 4, 0)
 
     def canonical(self):
-        return tuple(show(bl, bk) for (_, bl, bk) in self.basis)
+        return tuple(show(row[1], row[2]) for row in self.basis)
 
     def dense_projector_state(self):
         D = 2 ** self.N
         rho = np.eye(D, dtype=complex)
-        for (_, bl, bk) in self.basis:
-            rho = rho @ (np.eye(D) + dense(bl, bk)) / 2
+        for row in self.basis:
+            rho = rho @ (np.eye(D) + dense(row[1], row[2])) / 2
         return rho / 2 ** (self.N - self.dim)
 
     def restricted_dim(self, region_mask):
         """dim of subgroup supported inside region (mask bool (N))."""
-        # elements supported in A = kernel of restriction to complement
         comp = ~np.asarray(region_mask, dtype=bool)
-        rows = [to_g(bl)[np.repeat(comp, 2)] for (_, bl, bk) in self.basis]
+        rows = [row[3][np.repeat(comp, 2)] for row in self.basis]
         if not rows:
             return 0
         M = np.array(rows, dtype=np.int64)
+        if M.shape[1] == 0:
+            return len(rows)
         return len(rows) - gf2_rank(M)
 
 
@@ -540,3 +536,38 @@ def tableau_invariant(letters, ks, r):
     if not hermitian(ks[r:N]).all():
         return 'non-Hermitian active stabilizer'
     return None
+
+
+def random_big_clifford(N, seed, ngates=None):
+    """deterministic pseudo-random Clifford on many qubits (a pure function of its arguments): random single-qubit Cliffords on every qubit,
+    then ngates random H/S/CNOT gates applied column-wise (cost O(N) per gate), then random signs."""
+    rs = np.random.RandomState(seed)
+    ngates = 6 * N if ngates is None else ngates
+    c = RefClifford.identity(N)
+    L, K = c.L.copy(), c.K.copy()
+    ones = symplectic_group(1)
+
+    def apply_small(small, qs):
+        nonlocal L, K
+        # image of every row under the small map acting on columns qs: rows are products over qubits, only columns qs change
+        sub = L[:, qs]
+        rest_l = L.copy(); rest_l[:, qs] = 0
+        il, ik = small.apply(sub, np.zeros(len(L), dtype=np.int64))
+        full = np.zeros_like(L); full[:, qs] = il
+        # row = rest (x) sub  ->  rest (x) image(sub); they live on disjoint qubits so the product is a plain merge
+        L = rest_l + full
+        K = (K + ik) % 4
+    for q in range(N):
+        apply_small(ones[rs.randint(0, 6)], [q])
+    for _ in range(ngates):
+        t = rs.randint(0, 3)
+        if t == 0 or N == 1:
+            apply_small(G_H, [int(rs.randint(0, N))])
+        elif t == 1:
+            apply_small(G_S, [int(rs.randint(0, N))])
+        else:
+            a, b = rs.choice(N, size=2, replace=False)
+            a, b = int(min(a, b)), int(max(a, b))
+            apply_small(G_CNOT01 if rs.randint(0, 2) else G_CNOT10, [a, b])
+    K = (K + 2 * rs.randint(0, 2, size=2 * N)) % 4
+    return RefClifford(L, K)
